@@ -307,9 +307,11 @@ pub enum Op {
     /// harness-side: `<cache>/tmp` becomes a symlink to a directory on another filesystem (a
     /// legal layout in which the temp file cannot be renamed into the content area)
     TmpElsewhere,
-    /// two streaming writers of one process open at the same time: both are opened, their
-    /// chunks are written alternately, then they commit — `a` first, or `b` first
-    TwoWriters { a: WriteSpec, b: WriteSpec, b_first: bool },
+    /// two streaming writers of one process open at the same time. `plan` 0: both opened, chunks
+    /// written alternately, commit a, commit b; 1: the same, commit b first; 2: a opened and
+    /// written completely, b opened, a committed, b written and committed; 3: a opened, its
+    /// first chunk written, b opened, written and committed, rest of a written, a committed
+    TwoWriters { a: WriteSpec, b: WriteSpec, plan: u8 },
     /// harness-side: append a checksum-valid record for `key` (in its own bucket) whose
     /// integrity text is arbitrary — a state no well-formed call produces; lookups of that key
     /// are then judged by agreement (listing vs lookup, flavour vs flavour), not by the model
